@@ -13,8 +13,8 @@ Fixpoint scan (sep : rune -> bool) (w : str) (q : option rune) : option (option 
               end
   end.
 
-Lemma split_go_scan sep w : forall rest q q' chunk acc, scan sep w q = Some q' ->
-  split_go sep (w ++ rest) q chunk acc = split_go sep rest q' (rev w ++ chunk) acc.
+Lemma split_go_scan keep sep w : forall rest q q' chunk acc, scan sep w q = Some q' ->
+  split_go keep sep (w ++ rest) q chunk acc = split_go keep sep rest q' (rev w ++ chunk) acc.
 Proof. induction w as [|r t IH]; intros rest q q' chunk acc H; cbn in *.
   - now inversion H.
   - rewrite <- app_assoc. cbn. destruct q as [lq|].
@@ -31,26 +31,24 @@ Definition closed sep (w : str) := w <> [] /\ scan sep w None = Some None.
 Fixpoint join (s : rune) (ws : list str) : str :=
   match ws with [] => [] | [w] => w | w :: rest => w ++ s :: join s rest end.
 
-Lemma flush_nonempty (w : str) acc : w <> [] ->
-  (match rev w with [] => acc | _ => rev (rev w) :: acc end) = w :: acc.
-Proof. intros H. destruct (rev w) eqn:E.
-  - apply (f_equal (@rev _)) in E. rewrite rev_involutive in E. cbn in E. congruence.
-  - now rewrite <- E, rev_involutive. Qed.
+Lemma flush_nonempty keep (w : str) acc : w <> [] -> flush keep (rev w) acc = w :: acc.
+Proof. intros H. unfold flush. rewrite rev_involutive. destruct keep; [reflexivity|]. destruct (rev w) eqn:E; [|reflexivity].
+  apply (f_equal (@rev _)) in E. rewrite rev_involutive in E. cbn in E. congruence. Qed.
 
-Lemma split_join sep s : sep s = true -> is_quote s = false ->
+Lemma split_join keep sep s : sep s = true -> is_quote s = false ->
   forall ws acc, ws <> [] -> Forall (closed sep) ws ->
-  split_go sep (join s ws) None [] acc = Some (rev acc ++ ws).
+  split_go keep sep (join s ws) None [] acc = Some (rev acc ++ ws).
 Proof. intros Hs Hq. induction ws as [|w rest IH]; intros acc Hne F; [congruence|].
   inversion F as [|? ? [Hw Hsc] F']; subst.
   destruct rest as [|w2 rest'].
-  - cbn [join]. rewrite <- (app_nil_r w) at 1. rewrite (split_go_scan sep w [] None None [] acc Hsc).
-    rewrite app_nil_r. cbn [split_go]. destruct (rev w) as [|x xs] eqn:E; [apply (f_equal (@rev _)) in E; rewrite rev_involutive in E; cbn in E; congruence|]. rewrite <- E, rev_involutive. reflexivity.
+  - cbn [join]. rewrite <- (app_nil_r w) at 1. rewrite (split_go_scan keep sep w [] None None [] acc Hsc).
+    rewrite app_nil_r. cbn [split_go]. rewrite flush_nonempty by exact Hw. reflexivity.
   - change (join s (w :: w2 :: rest')) with (w ++ s :: join s (w2 :: rest')).
-    rewrite (split_go_scan sep w _ None None [] acc Hsc). rewrite app_nil_r. cbn [split_go]. rewrite Hq, Hs.
-    destruct (rev w) as [|x xs] eqn:E; [apply (f_equal (@rev _)) in E; rewrite rev_involutive in E; cbn in E; congruence|]. rewrite <- E, rev_involutive.
+    rewrite (split_go_scan keep sep w _ None None [] acc Hsc). rewrite app_nil_r. cbn [split_go]. rewrite Hq, Hs.
+    rewrite flush_nonempty by exact Hw.
     rewrite IH; [|discriminate|exact F']. cbn [rev]. now rewrite <- app_assoc. Qed.
 
-Theorem split_func_join sep s ws : sep s = true -> is_quote s = false -> ws <> [] -> Forall (closed sep) ws ->
-  split_func sep (join s ws) = Some ws.
+Theorem split_func_join keep sep s ws : sep s = true -> is_quote s = false -> ws <> [] -> Forall (closed sep) ws ->
+  split_func keep sep (join s ws) = Some ws.
 Proof. intros. unfold split_func. now rewrite split_join. Qed.
 Print Assumptions split_func_join.
